@@ -42,6 +42,22 @@ def enables():
         "chest-bundle-var": ([("place", "ch", "steel-chest", I(30), I(20), None), ("decl", "Bundle", "cc", ("output", "ch"))],
                              B(">", ("all", V("cc")), I(100))),
         "tank[water]>10": ([("place", "tk", "storage-tank", I(30), I(20), None)], B(">", ("sel", ("output", "tk"), "water"), I(10))),
+        # round 5: every comparator against a second signal, integer on the left, ||, !, sums of comparisons, function result,
+        # projection, and a comparison of a comparison
+        **{f"x{op}y": ([], B(op, X, Y)) for op in ("<", "<=", "==", "!=", ">=")},
+        "3<x": ([], B("<", I(3), X)),
+        "0!=x": ([], B("!=", I(0), X)),
+        "x>3||y<3": ([], B("||", B(">", X, I(3)), B("<", Y, I(3)))),
+        "!(x>3)": ([], ("un", "!", B(">", X, I(3)))),
+        "!x": ([], ("un", "!", X)),
+        "-x": ([], ("un", "-", X)),
+        "cmp+cmp>=2": ([], B(">=", B("+", B(">", X, I(3)), B(">", Y, I(3))), I(2))),
+        "cmp==cmp": ([], B("==", B(">", X, I(3)), B(">", Y, I(3)))),
+        "x%2==1": ([], B("==", B("%", X, I(2)), I(1))),
+        "proj": ([], B(">", ("proj", X, "signal-Q"), I(3))),
+        "x-y": ([], B("-", X, Y)),
+        "fn": ([("func", "over", [("Signal", "s"), ("int", "lim")], [], B(">", V("s"), V("lim")))], ("call", "over", [X, I(3)])),
+        "x>3&&y<3&&x<5": ([], B("&&", B("&&", B(">", X, I(3)), B("<", Y, I(3))), B("<", X, I(5)))),
         "chest*2 any": ([("place", "ch", "steel-chest", I(30), I(20), None), ("decl", "Bundle", "c2", B("*", ("output", "ch"), I(2)))],
                         B(">", ("any", V("c2")), I(250))),
     }
@@ -146,7 +162,7 @@ class C06(core.Check):
     level = "exploration"
     timeout = 300
     rule = ("every prototype of {lamp, inserter, belt, pump, power switch, train stop, assembler} x every enable form "
-            "(inlinable comparison, plain signal, arithmetic, &&, named comparison, any/all of a bundle, any/all/selection "
+            "(inlinable comparison with every comparator against an integer or a second signal, integer on the left, plain signal, arithmetic, &&, ||, !, unary minus, sums and comparisons of comparisons, projection, function result, named comparison, any/all of a bundle, any/all/selection "
             "of a chest/tank output, scaled chest output) plus shared-comparison / shared-source / balanced-loader programs "
             "x the full product of input values and chest/tank contents; the entity's circuit_condition is evaluated on "
             "the networks actually wired to it and must equal (expr > 0); non-trivial = the condition took both values")
